@@ -831,10 +831,14 @@ def rule_r9(prog, res):
     for c in gets:
         k = c.args[0]
         srcs = [unparse(k)]
-        if isinstance(k, ast.Name):
+        # the key, or the name it is an encoded/decoded form of
+        knames = [k.id] if isinstance(k, ast.Name) else [
+            x.id for x in ast.walk(k) if isinstance(x, ast.Name) and
+            x.id != 'self']
+        for kn in knames:
             srcs += [unparse(a.value) for a in walk_no_defs(f.node)
                      if isinstance(a, ast.Assign) and any(
-                         isinstance(t, ast.Name) and t.id == k.id
+                         isinstance(t, ast.Name) and t.id == kn
                          for t in a.targets)]
         ok = any('get_element_name' in s_ or 'sub_name' in s_ for s_ in srcs)
         where = '%s:%d' % (f.module.relpath, c.lineno)
@@ -941,8 +945,10 @@ MUTANTS = [
     Mutant('hier-leaf-branch-dropped', 'R9', 'fire',
            'spyne/protocol/dictdoc/hier.py',
            in_func('HierDictDocument.deserialize',
-                   "not issubclass(body_class, ComplexModelBase)",
-                   "not issubclass(body_class, ModelBase)"), 'leaf-message'),
+                   "            if not issubclass(body_class, "
+                   "ComplexModelBase):\n",
+                   "            if not issubclass(body_class, ModelBase):\n"),
+           'leaf-message'),
     Mutant('prefetch-with-unique-sentinel', 'R8', 'silent',
            'spyne/server/wsgi.py',
            in_func('WsgiApplication.handle_rpc',
